@@ -353,6 +353,12 @@ fn c01_compaction_keeps_every_view_n8_s5() {
 	views_preserved::<8, 5>(8, 5);
 }
 
+#[kani::proof]
+#[kani::unwind(12)]
+fn c01_compaction_keeps_every_view_n10_s6() {
+	views_preserved::<10, 6>(10, 6);
+}
+
 /// C10-O1: with versioning enabled a version disappears only with a licence.
 fn history_retained<const MAXN: usize, const MAXS: usize>(maxn: usize, maxs: usize) {
 	let sc = Scenario::<MAXN, MAXS>::any(maxn, maxs, 14);
@@ -436,6 +442,12 @@ fn c10_retention_never_loses_live_version_n8_s5() {
 	history_retained::<8, 5>(8, 5);
 }
 
+#[kani::proof]
+#[kani::unwind(12)]
+fn c10_retention_never_loses_live_version_n10_s6() {
+	history_retained::<10, 6>(10, 6);
+}
+
 /// C10-O2: an erased version never outlives its barrier: if a version with a hard delete or a
 /// replace above it is kept, some barrier above it is kept too (the history readers apply the
 /// barrier at read time; once every barrier above a kept version is gone it shows up in history again).
@@ -492,6 +504,12 @@ fn c10_barrier_never_outlived_n6_s4() {
 #[kani::unwind(10)]
 fn c10_barrier_never_outlived_n8_s5() {
 	barrier_never_outlived::<8, 5>(8, 5);
+}
+
+#[kani::proof]
+#[kani::unwind(12)]
+fn c10_barrier_never_outlived_n10_s6() {
+	barrier_never_outlived::<10, 6>(10, 6);
 }
 
 /// Witness of known finding F10r (only run while it is listed): [Set, Replace (expired), Set] with a
